@@ -58,8 +58,12 @@ func DestinationPoint(lat, lon, meters, bearingDegrees float64) (
 	θ := bearingDegrees * radians
 	φ1 := lat * radians
 	λ1 := lon * radians
-	φ2 := math.Asin(math.Sin(φ1)*math.Cos(δ) +
-		math.Cos(φ1)*math.Sin(δ)*math.Cos(θ))
+	// sin φ2 and cos φ2 separately: asin alone loses the latitude near a pole,
+	// where sin φ2 is within rounding of ±1
+	sinφ2 := math.Sin(φ1)*math.Cos(δ) + math.Cos(φ1)*math.Sin(δ)*math.Cos(θ)
+	cosφ2 := math.Hypot(math.Cos(φ1)*math.Cos(δ)-math.Sin(φ1)*math.Sin(δ)*math.Cos(θ),
+		math.Sin(δ)*math.Sin(θ))
+	φ2 := math.Atan2(sinφ2, cosφ2)
 	λ2 := λ1 + math.Atan2(math.Sin(θ)*math.Sin(δ)*math.Cos(φ1),
 		math.Cos(δ)-math.Sin(φ1)*math.Sin(φ2))
 	λ2 = math.Mod(λ2+3*math.Pi, 2*math.Pi) - math.Pi // normalise to -180..+180°
